@@ -660,6 +660,256 @@ theorem polyfit_spec (fit : List α → List α → ℕ → List α) (x0 y0 : Py
     have := fx2 ⟨a, by simp [ha], by rw [unitOfScalar_dims]; exact hne⟩
     simp only [polyfit, this]
 
+
+/-! ### round 3: containers for dimensionality / registry functions, `uniform` itself, compare_equality, _wrap_numpy, polyfit covariance -/
+
+theorem isUnitlessScalar_iff (a : PyVal α) : isUnitlessScalar a = true ↔ a.dims = Dims.zero := by
+  cases a <;> simp [isUnitlessScalar, PyVal.dims, PyVal.asQuantity, Unit.one]
+
+theorem isUnitlessList_atoms (l : List (PyVal α)) :
+    isUnitlessList (l.map Val.atom) = true ↔ ∀ a ∈ l, a.dims = Dims.zero := by
+  induction l with
+  | nil => simp [isUnitlessList]
+  | cons a r ih => simp [isUnitlessList, isUnitless, isUnitlessScalar_iff, ih]
+
+theorem isUnitlessDict_atoms (d : List (String × PyVal α)) :
+    isUnitlessDict (d.map fun p => (p.1, Val.atom p.2)) = true ↔ ∀ p ∈ d, p.2.dims = Dims.zero := by
+  induction d with
+  | nil => simp [isUnitlessDict]
+  | cons p r ih => obtain ⟨k, v⟩ := p; simp [isUnitlessDict, isUnitless, isUnitlessScalar_iff, ih]
+
+theorem toUnitlessList_atoms (l : List (PyVal α)) (u : PyVal α) :
+    toUnitlessList (l.map Val.atom) u = (toUnitlessFlat l u).map (fun xs => xs.map Res.num) := by
+  induction l with
+  | nil => simp [toUnitlessList, toUnitlessFlat, Except.map]
+  | cons a r ih =>
+    simp only [List.map_cons, toUnitlessList, toUnitless, toUnitlessFlat, ih]
+    cases toUnitlessScalar a u <;> simp [Except.map]
+    cases toUnitlessFlat r u <;> simp [Except.map]
+
+/-- `uniform` of a list/tuple itself: every element is re-expressed in the unit of the FIRST element (same physical value,
+    same dimension); one element of another dimension → ValueError; empty → IndexError -/
+theorem uniformList_spec (h : PyVal α) (t : List (PyVal α)) (hw : ∀ a ∈ h :: t, a.WF) :
+    ((∀ a ∈ t, a.dims = h.dims) →
+      uniformList (h :: t) = .ok ((h :: t).map fun a => timesUnit (a.si / (unitOfScalar h).si) (unitOfScalar h)) ∧
+      ((h :: t).map fun a => timesUnit (a.si / (unitOfScalar h).si) (unitOfScalar h)).map PyVal.si = (h :: t).map PyVal.si ∧
+      ∀ e ∈ (h :: t).map (fun a => timesUnit (a.si / (unitOfScalar h).si) (unitOfScalar h)),
+        e.dims = h.dims ∧ unitOfScalar e = unitOfScalar h) ∧
+    ((∃ a ∈ t, a.dims ≠ h.dims) → uniformList (h :: t) = .error .valueError) ∧
+    uniformList ([] : List (PyVal α)) = .error .indexError := by
+  have hu := unitOfScalar_wf (hw h (by simp))
+  have hud := unitOfScalar_dims h
+  have hune := unitOfScalar_si_ne (hw h (by simp))
+  obtain ⟨f1, f2⟩ := toUnitlessFlat_spec (h :: t) (unitOfScalar h) hw hu
+  refine ⟨?_, ?_, rfl⟩
+  · intro hc
+    have hall : ∀ a ∈ h :: t, a.dims = (unitOfScalar h).dims := by
+      intro a ha
+      rcases List.mem_cons.mp ha with rfl | ha
+      · exact hud.symm
+      · rw [hud]; exact hc a ha
+    refine ⟨by simp only [uniformList, f1 hall, List.map_map]; rfl, ?_, ?_⟩
+    · have := map_timesUnit_si (h :: t) (unitOfScalar h) hune
+      simpa [List.map_map] using this
+    · intro e he
+      obtain ⟨a, _, rfl⟩ := List.mem_map.mp he
+      exact ⟨by rw [timesUnit_dims, hud], unitOfScalar_timesUnit _ _⟩
+  · rintro ⟨a, ha, hne⟩
+    simp only [uniformList, f2 ⟨a, by simp [ha], by rw [hud]; exact hne⟩]
+
+theorem uniformDictGo_spec (u : PyVal α) (hu : u.WF) (d : List (String × PyVal α)) (hw : ∀ p ∈ d, p.2.WF) :
+    ((∀ p ∈ d, p.2.dims = u.dims) → uniformDictGo u d = .ok (d.map fun p => (p.1, timesUnit (p.2.si / u.si) u))) ∧
+    ((∃ p ∈ d, p.2.dims ≠ u.dims) → uniformDictGo u d = .error .valueError) := by
+  induction d with
+  | nil => exact ⟨fun _ => rfl, by simp⟩
+  | cons p r ih =>
+    obtain ⟨k, v⟩ := p
+    obtain ⟨ih1, ih2⟩ := ih (fun q hq => hw q (by simp [hq]))
+    have hv : v.WF := hw (k, v) (by simp)
+    constructor
+    · intro hc
+      have h1 := (toUnitlessScalar_ok_iff hv hu _).mpr ⟨hc (k, v) (by simp), rfl⟩
+      simp [uniformDictGo, h1, ih1 (fun q hq => hc q (by simp [hq]))]
+    · rintro ⟨q, hq, hne⟩
+      by_cases hvd : v.dims = u.dims
+      · have h1 := (toUnitlessScalar_ok_iff hv hu _).mpr ⟨hvd, rfl⟩
+        rcases List.mem_cons.mp hq with rfl | hq
+        · exact absurd hvd hne
+        · simp [uniformDictGo, h1, ih2 ⟨q, hq, hne⟩]
+      · have h1 := (toUnitlessScalar_error_iff hv hu _).mpr ⟨hvd, rfl⟩
+        simp [uniformDictGo, h1]
+
+/-- `uniform` of a dict: unit of the first VALUE, keys kept in order -/
+theorem uniformDict_spec (k0 : String) (v0 : PyVal α) (d : List (String × PyVal α)) (hw : ∀ p ∈ (k0, v0) :: d, p.2.WF) :
+    ((∀ p ∈ d, p.2.dims = v0.dims) →
+      uniform (.dict ((k0, v0) :: d)) =
+        .ok (.dict (((k0, v0) :: d).map fun p => (p.1, timesUnit (p.2.si / (unitOfScalar v0).si) (unitOfScalar v0))))) ∧
+    ((∃ p ∈ d, p.2.dims ≠ v0.dims) → uniform (.dict ((k0, v0) :: d)) = .error .valueError) ∧
+    uniform (.dict ([] : List (String × PyVal α))) = .error .indexError := by
+  have hu := unitOfScalar_wf (hw (k0, v0) (by simp))
+  have hud := unitOfScalar_dims v0
+  obtain ⟨g1, g2⟩ := uniformDictGo_spec (unitOfScalar v0) hu ((k0, v0) :: d) hw
+  refine ⟨?_, ?_, rfl⟩
+  · intro hc
+    have : ∀ p ∈ (k0, v0) :: d, p.2.dims = (unitOfScalar v0).dims := by
+      intro p hp
+      rcases List.mem_cons.mp hp with rfl | hp
+      · exact hud.symm
+      · rw [hud]; exact hc p hp
+    simp only [uniform, g1 this, Except.map]
+  · rintro ⟨p, hp, hne⟩
+    simp only [uniform, g2 ⟨p, by simp [hp], by rw [hud]; exact hne⟩, Except.map]
+
+/-- `get_physical_dimensionality` of a list/tuple: the non-zero exponents of the common dimension -/
+theorem getPhysicalDimensionality_list (h : PyVal α) (t : List (PyVal α)) (hw : ∀ a ∈ h :: t, a.WF) :
+    ((∀ a ∈ t, a.dims = h.dims) → getPhysicalDimensionality (.list (h :: t)) = .ok (dimItems 0 h.dims)) ∧
+    ((∃ a ∈ t, a.dims ≠ h.dims) → getPhysicalDimensionality (.list (h :: t)) = .error .valueError) := by
+  obtain ⟨u1, u2, _⟩ := uniformList_spec h t hw
+  have hd := PyVal.dims_wf (hw h (by simp))
+  have hnil : dimItems 0 h.dims = [] ↔ h.dims = Dims.zero := by rw [dimItems_eq_nil_iff, Dims.eq_zero_iff hd]
+  constructor
+  · intro hc
+    by_cases hz : h.dims = Dims.zero
+    · have : isUnitlessList ((h :: t).map Val.atom) = true :=
+        (isUnitlessList_atoms _).mpr (fun a ha => by
+          rcases List.mem_cons.mp ha with rfl | ha
+          · exact hz
+          · rw [hc a ha, hz])
+      simp only [getPhysicalDimensionality, Flat.toVal, isUnitless, this, if_true, hnil.mpr hz]
+    · have : ¬ isUnitlessList ((h :: t).map Val.atom) = true := fun hh =>
+        hz ((isUnitlessList_atoms _).mp hh h (by simp))
+      obtain ⟨e1, _, e3⟩ := u1 hc
+      simp only [getPhysicalDimensionality, Flat.toVal, isUnitless, this, e1, List.map_cons]
+      have := (e3 _ (by simp : timesUnit (h.si / (unitOfScalar h).si) (unitOfScalar h) ∈
+        (h :: t).map fun a => timesUnit (a.si / (unitOfScalar h).si) (unitOfScalar h))).1
+      simp only [PyVal.dims] at this
+      have hnu : ¬ isUnitlessList (Val.atom h :: List.map Val.atom t) = true := by simpa using ‹¬ isUnitlessList ((h :: t).map Val.atom) = true›
+      rw [if_neg hnu, this]
+      rfl
+  · rintro ⟨a, ha, hne⟩
+    have : ¬ isUnitlessList ((h :: t).map Val.atom) = true := fun hh => by
+      have hall := (isUnitlessList_atoms _).mp hh
+      exact hne ((hall a (by simp [ha])).trans (hall h (by simp)).symm)
+    simp only [getPhysicalDimensionality, Flat.toVal, isUnitless, this, u2 ⟨a, ha, hne⟩]
+    rfl
+
+/-- a dict: `{}` when every value is unitless; otherwise AttributeError (a dict has no `.simplified`) — the code does not
+    support dimensional dicts in `get_physical_dimensionality` / the registry functions -/
+theorem getPhysicalDimensionality_dict (d : List (String × PyVal α)) :
+    ((∀ p ∈ d, p.2.dims = Dims.zero) → getPhysicalDimensionality (.dict d) = .ok []) ∧
+    ((∃ p ∈ d, p.2.dims ≠ Dims.zero) → getPhysicalDimensionality (.dict d) = .error .attributeError) := by
+  constructor
+  · intro h
+    simp [getPhysicalDimensionality, Flat.toVal, isUnitless, (isUnitlessDict_atoms d).mpr h]
+  · rintro ⟨p, hp, hne⟩
+    have : ¬ isUnitlessDict (d.map fun p => (p.1, Val.atom p.2)) = true := fun hh =>
+      hne ((isUnitlessDict_atoms d).mp hh p hp)
+    simp [getPhysicalDimensionality, Flat.toVal, isUnitless, this]
+
+/-- the default unit only depends on the reported dimensionality -/
+theorem defaultUnit_of_dimensionality (reg : Registry α) (hreg : RegistryWF reg) (v : Flat α) (d : Dims) (hd : Dims.WF d)
+    (hg : getPhysicalDimensionality v = .ok (dimItems 0 d)) :
+    ∃ U, defaultUnitInRegistry v reg = .ok U ∧ U.WF ∧ U.dims = d ∧ U.si = regProd reg d ∧ U.si ≠ 0 := by
+  have hnil : dimItems 0 d = [] ↔ d = Dims.zero := by rw [dimItems_eq_nil_iff, Dims.eq_zero_iff hd]
+  cases hit : dimItems 0 d with
+  | nil =>
+    have hz := hnil.mp hit
+    refine ⟨PyVal.one, by simp [defaultUnitInRegistry, hg, hit], by simp [PyVal.one, PyVal.WF], ?_, ?_, ?_⟩
+    · simp [PyVal.one, hz]
+    · rw [hz, regProd_zero]; simp [PyVal.one]
+    · simp [PyVal.one]
+  | cons x xs =>
+    obtain ⟨U, h1, h2, h3, h4, h5⟩ := getUnitFromRegistry_spec reg hreg d hd (by simp [hit])
+    refine ⟨U, ?_, h2, h3, h4, h5⟩
+    simp only [defaultUnitInRegistry, hg, hit]
+    rw [← hit]; exact h1
+
+/-- **registry functions on a list/tuple of quantities of one dimension**: one default unit for the whole container, every
+    element divided by its SI value; an element of another dimension raises -/
+theorem registry_consistent_list (reg : Registry α) (hreg : RegistryWF reg) (h : PyVal α) (t : List (PyVal α))
+    (hw : ∀ a ∈ h :: t, a.WF) :
+    ((∀ a ∈ t, a.dims = h.dims) →
+      ∃ U, defaultUnitInRegistry (.list (h :: t)) reg = .ok U ∧ U.WF ∧ U.dims = h.dims ∧ U.si = regProd reg h.dims ∧ U.si ≠ 0 ∧
+        unitlessInRegistry (.list (h :: t)) reg = .ok (.list ((h :: t).map fun a => Res.num (a.si / U.si))) ∧
+        ((h :: t).map fun a => (timesUnit (a.si / U.si) U).si) = (h :: t).map PyVal.si) ∧
+    ((∃ a ∈ t, a.dims ≠ h.dims) →
+      defaultUnitInRegistry (.list (h :: t)) reg = .error .valueError ∧
+      unitlessInRegistry (.list (h :: t)) reg = .error .valueError) := by
+  obtain ⟨g1, g2⟩ := getPhysicalDimensionality_list h t hw
+  constructor
+  · intro hc
+    obtain ⟨U, h1, h2, h3, h4, h5⟩ := defaultUnit_of_dimensionality reg hreg (.list (h :: t)) h.dims
+      (PyVal.dims_wf (hw h (by simp))) (g1 hc)
+    have hall : ∀ a ∈ h :: t, a.dims = U.dims := by
+      intro a ha
+      rcases List.mem_cons.mp ha with rfl | ha
+      · exact h3.symm
+      · rw [h3]; exact hc a ha
+    have hf := (toUnitlessFlat_spec (h :: t) U hw h2).1 hall
+    refine ⟨U, h1, h2, h3, h4, h5, ?_, ?_⟩
+    · simp only [unitlessInRegistry, h1, Flat.toVal, toUnitless_list, toUnitlessList_atoms, hf, Except.map, List.map_map]
+      rfl
+    · apply List.map_congr_left
+      intro a _
+      rw [timesUnit_si]; field_simp
+  · intro hbad
+    have hdu : defaultUnitInRegistry (.list (h :: t)) reg = .error .valueError := by
+      simp only [defaultUnitInRegistry, g2 hbad]
+    exact ⟨hdu, by simp only [unitlessInRegistry, hdu]⟩
+
+/-- `compare_equality` on two quantities: True exactly when they have the same dimension and the same physical value -/
+theorem compareEquality_qty (p q : Quantity α) (hp : (PyVal.qty p).WF) :
+    compareEquality (.qty p) (.qty q) = true ↔ p.unit.dims = q.unit.dims ∧ (PyVal.qty p).si = (PyVal.qty q).si := by
+  have hf : p.unit.factor ≠ 0 := hp.factor_ne
+  by_cases hd : p.unit.dims = q.unit.dims
+  · simp only [compareEquality, addLike, PyVal.asQuantity, hd, if_true, pyEq, true_and, decide_eq_true_eq, PyVal.si_qty]
+    constructor
+    · intro h; rw [h]; field_simp
+    · intro h; field_simp; exact h
+  · simp [compareEquality, addLike, PyVal.asQuantity, hd]
+
+theorem compareEquality_num (x y : α) : compareEquality (.num x) (.num y) = true ↔ x = y := by
+  simp [compareEquality, addLike, pyEq]
+
+/-- `_wrap_numpy` is the Backend wrapper -/
+theorem wrapNumpy_eq_backendCall {β : Type} (f : List α → β) (args : List (PyVal α)) : wrapNumpy f args = backendCall f args := rfl
+
+/-- IF the fitting routine is scaling-covariant (least squares is: rescaling the abscissae by `a` and the ordinates by `b`
+    rescales coefficient `i` by `b·a^(i−deg)`), the physical coefficients returned by `polyfit` are the fit of the physical data,
+    whatever units the data were given in. -/
+theorem polyfit_unit_independent (fit : List α → List α → ℕ → List α)
+    (hcov : ∀ (xs ys : List α) (a b : α) (deg i : ℕ), a ≠ 0 → b ≠ 0 →
+      (fit (xs.map (· * a)) (ys.map (· * b)) deg)[i]? = ((fit xs ys deg)[i]?).map (· * (b * a ^ ((i : ℤ) - (deg : ℤ)))))
+    (x0 y0 : PyVal α) (xt yt : List (PyVal α)) (deg : ℕ)
+    (hxw : ∀ a ∈ x0 :: xt, a.WF) (hyw : ∀ a ∈ y0 :: yt, a.WF)
+    (hx : ∀ a ∈ xt, a.dims = x0.dims) (hy : ∀ a ∈ yt, a.dims = y0.dims) :
+    ∃ r, polyfit fit (x0 :: xt) (y0 :: yt) deg = .ok r ∧
+      r.map PyVal.si = fit ((x0 :: xt).map PyVal.si) ((y0 :: yt).map PyVal.si) deg := by
+  obtain ⟨r, hr, hlen, hel⟩ := (polyfit_spec fit x0 y0 xt yt deg hxw hyw).1 hx hy
+  have ha := unitOfScalar_si_ne (hxw x0 (by simp))
+  have hb := unitOfScalar_si_ne (hyw y0 (by simp))
+  refine ⟨r, hr, ?_⟩
+  have hxs : ((x0 :: xt).map fun a => a.si / (unitOfScalar x0).si).map (· * (unitOfScalar x0).si) = (x0 :: xt).map PyVal.si := by
+    rw [List.map_map]; apply List.map_congr_left; intro a _; simp only [Function.comp]; field_simp
+  have hys : ((y0 :: yt).map fun a => a.si / (unitOfScalar y0).si).map (· * (unitOfScalar y0).si) = (y0 :: yt).map PyVal.si := by
+    rw [List.map_map]; apply List.map_congr_left; intro a _; simp only [Function.comp]; field_simp
+  apply List.ext_getElem?
+  intro i
+  have hc := hcov ((x0 :: xt).map fun a => a.si / (unitOfScalar x0).si) ((y0 :: yt).map fun a => a.si / (unitOfScalar y0).si)
+    (unitOfScalar x0).si (unitOfScalar y0).si deg i ha hb
+  rw [hxs, hys] at hc
+  rw [hc, List.getElem?_map]
+  by_cases hi : i < r.length
+  · have hi' : i < (fit ((x0 :: xt).map fun a => a.si / (unitOfScalar x0).si)
+        ((y0 :: yt).map fun a => a.si / (unitOfScalar y0).si) deg).length := by rw [← hlen]; exact hi
+    rw [List.getElem?_eq_getElem hi, List.getElem?_eq_getElem hi']
+    simp only [Option.map_some]
+    rw [(hel i hi hi').1]
+  · have hi' : ¬ i < (fit ((x0 :: xt).map fun a => a.si / (unitOfScalar x0).si)
+        ((y0 :: yt).map fun a => a.si / (unitOfScalar y0).si) deg).length := by rw [← hlen]; exact hi
+    rw [List.getElem?_eq_none (Nat.le_of_not_lt hi), List.getElem?_eq_none (Nat.le_of_not_lt hi')]
+    rfl
+
 /-! ### allclose: the test is a statement about physical values -/
 section Ordered
 variable {β : Type} [Field β] [LinearOrder β] [IsStrictOrderedRing β]
@@ -711,6 +961,31 @@ theorem allcloseScalar_none (a b : PyVal β) (ha : a.WF) (hb : b.WF) (rtol : β)
         exact decide_eq_decide.mpr (allclose_key p.mag q.mag p.unit.factor q.unit.factor rtol hfp)
   · intro hd
     cases a <;> cases b <;> simp_all [allcloseScalar, addLike, PyVal.asQuantity, PyVal.dims, Unit.one]
+
+/-- `allclose(a, b, rtol, atol)` for three quantities (unit of `a` with positive factor): an `atol` of another dimension raises
+    ValueError; otherwise the plain test `|a − b| ≤ |a|·rtol + atol` on the physical values -/
+theorem allcloseScalar_atol (p q t : Quantity β) (hp : (PyVal.qty p).WF) (hpos : 0 < p.unit.factor) (rtol : β)
+    (hd : p.unit.dims = q.unit.dims) :
+    (p.unit.dims = t.unit.dims →
+      allcloseScalar (.qty p) (.qty q) rtol (some (.qty t)) =
+        .ok (decide (|(PyVal.qty p).si - (PyVal.qty q).si| ≤ |(PyVal.qty p).si| * rtol + (PyVal.qty t).si))) ∧
+    (p.unit.dims ≠ t.unit.dims → allcloseScalar (.qty p) (.qty q) rtol (some (.qty t)) = .error .valueError) := by
+  have hf : p.unit.factor ≠ 0 := hpos.ne'
+  constructor
+  · intro ht
+    simp only [allcloseScalar, addLike, PyVal.asQuantity, hd, ← ht, if_true, absv_eq, PyVal.si_qty]
+    congr 1
+    apply decide_eq_decide.mpr
+    rw [div_self hf, mul_one, ← mul_le_mul_iff_of_pos_right hpos]
+    have e1 : |p.mag - q.mag * (q.unit.factor / p.unit.factor)| * p.unit.factor = |p.mag * p.unit.factor - q.mag * q.unit.factor| := by
+      rw [← abs_of_pos hpos, ← abs_mul, abs_of_pos hpos]; congr 1; field_simp
+    have e2 : (|p.mag| * rtol + t.mag * (t.unit.factor / p.unit.factor)) * p.unit.factor =
+        |p.mag * p.unit.factor| * rtol + t.mag * t.unit.factor := by
+      rw [abs_mul, abs_of_pos hpos]; field_simp
+    rw [e1, e2]
+  · intro ht
+    have ht' : ¬ q.unit.dims = t.unit.dims := hd ▸ ht
+    simp only [allcloseScalar, addLike, PyVal.asQuantity, hd, if_true, ht', if_false]
 
 end Ordered
 
